@@ -231,6 +231,9 @@ func (p *Path) vpIntrinsic(caller *frame, fn *ssa.Function, name string, args []
 			return intConst(1)
 		case "%.2f":
 			return intConst(2)
+		case "%d.%d":
+			// the number of digits %d prints for the second operand (fork over the digit count)
+			return intConst(int64(p.decimalDigits(p.toInt(t.Arg2))))
 		}
 		p.abortf("vp_TokDecimals: unsupported format %q", t.Format)
 	case "vp_TokScaled":
@@ -247,6 +250,10 @@ func (p *Path) vpIntrinsic(caller *frame, fn *ssa.Function, name string, args []
 		switch t.Format {
 		case "%d":
 			return Struct{p.toInt(t.Arg)}
+		case "%d.%d":
+			frac := p.toInt(t.Arg2)
+			nd := p.decimalDigits(frac)
+			return Struct{smt.IAdd(smt.IMul(p.toInt(t.Arg), smt.ConstInt(bigPow10(nd))), frac)}
 		case "%.0f", "%.1f", "%.2f":
 			if t.X == nil {
 				p.abortf("vp_TokScaled: float token outside the Int back end")
